@@ -186,14 +186,14 @@ def const_value(src, name):
     if len(ms) != 1:
         raise ParseError("const %s found %d times" % (name, len(ms)))
     v = ms[0].strip()
+    m = re.fullmatch(r'"(.*)"\.len\(\)', v)
+    if m:
+        return len(m.group(1))
     v = re.sub(r"(u8|u16|u32|u64|usize)$", "", v).replace("_", "")
     if v.startswith("0x"):
         return int(v, 16)
     if re.fullmatch(r"\d+", v):
         return int(v)
-    m = re.fullmatch(r'"(.*)"\.len\(\)', v)
-    if m:
-        return len(m.group(1))
     raise ParseError("cannot evaluate const %s = %s" % (name, v))
 
 
